@@ -594,3 +594,67 @@ Proof.
   exists v. split; [symmetry; exact Esi|]. split; [|exact F].
   cbn [fst] in R. unfold summary_of. exact R.
 Qed.
+
+(* ================================================================== C19: the clean-up chain starts with the query for a dangling pre-authorisation *)
+
+Definition pending_query_value : value := VRec [VSome (VInt 65535); VNone; VNone; VNone; VNone].
+
+Lemma pending_query_in_class : exists b, canon_cmd (cmd_of "zvt::packets::PartialReversal") pending_query_value = Some b.
+Proof.
+  destruct (fld_receipt 135 65535 eq_refl (or_intror eq_refl)) as [g1 [H1 L1]].
+  apply (class_cmd_tagged (cmd_of "zvt::packets::PartialReversal") _ (4 + (0 + (0 + (0 + (0 + 0)))))).
+  - change (c_fields (cmd_of "zvt::packets::PartialReversal")) with S_zvt_packets_PartialReversal. unfold S_zvt_packets_PartialReversal.
+    eapply to_cons; [reflexivity|exact H1|exact L1|].
+    do 4 (eapply to_cons; [reflexivity|apply absent|unfold blen; cbn [length]; lia|]). apply to_nil.
+  - reflexivity.
+  - lia.
+  - reflexivity.
+Qed.
+
+Theorem pending_query_on_the_wire :
+  let req := mk_cmd "zvt::packets::PartialReversal" [] [(135, VSome (VInt 65535))] in
+  req <> [] /\ forall r, dec_cmd FUEL (cmd_of "zvt::packets::PartialReversal") (req ++ r) = Ok (pending_query_value, r).
+Proof.
+  intros req. destruct pending_query_in_class as [b Hb].
+  destruct (canon_cmd_roundtrip _ _ _ Hb) as [Henc Hdec].
+  assert (Hreq : req = b).
+  { unfold req, mk_cmd, run_enc.
+    change (find_struct "zvt::packets::PartialReversal") with (Some (Some (6, 35), S_zvt_packets_PartialReversal)).
+    change (snd (layout_of "zvt::packets::PartialReversal")) with S_zvt_packets_PartialReversal.
+    change (build_rec S_zvt_packets_PartialReversal [] _) with [VSome (VInt 65535); VNone; VNone; VNone; VNone].
+    cbv beta iota.
+    change {| c_class := 6; c_instr := 35; c_fields := S_zvt_packets_PartialReversal |} with (cmd_of "zvt::packets::PartialReversal").
+    unfold pending_query_value in Henc. rewrite Henc. reflexivity. }
+  rewrite Hreq. split.
+  - intros ->. vm_compute in Henc. discriminate.
+  - intros r. apply Hdec. vm_compute. lia.
+Qed.
+
+(* whatever the state and the world: end_of_day (the clean-up chain) first asks, on the connection in use, for a dangling
+   pre-authorisation — a partial reversal carrying the marker FFFF and nothing else *)
+Theorem end_of_day_first_asks_for_pending cfg st w id : w_cur w = Some id ->
+  exists req, req <> [] /\
+    first_new_event w (snd (end_of_day cfg st w)) (EWrite id (w_now w) req) /\
+    forall r, dec_cmd FUEL (cmd_of "zvt::packets::PartialReversal") (req ++ r) = Ok (pending_query_value, r).
+Proof.
+  intros C. destruct pending_query_on_the_wire as [Hne Hdec]. eexists. split; [exact Hne|]. split; [|exact Hdec].
+  set (e := EWrite id (w_now w) _).
+  assert (K : grows (e :: w_log w) (snd (get_pending cfg w))).
+  { unfold get_pending.
+    match goal with |- context [consume LOOPFUEL cfg (start_retry ?q TIMEOUT) w tt ?h ?fin] =>
+      pose proof (call_writes_request_first cfg h fin q TIMEOUT id 399 w tt C) as K;
+      change (S 399) with LOOPFUEL in K; rewrite q_cmd_seq_of in K; exact K end. }
+  unfold end_of_day. destruct (get_pending cfg w) as [[pend|er] w1]; cbn [snd] in K |- *; [|exact K].
+  assert (F : forall (l : list N) (acc : cres unit * world), grows (e :: w_log w) (snd acc) ->
+            grows (e :: w_log w) (snd (fold_left (fun acc p => match acc with
+                                               | (ROk _, w) => cancel_by_receipt cfg p w
+                                               | other => other end) l acc))).
+  { induction l as [|p l IHl]; intros acc Ha; [exact Ha|]. cbn [fold_left]. apply IHl.
+    destruct acc as [[u|er] w0]; cbn [snd] in *; [apply (cancel_by_receipt_inv cfg _ (retry_next_grows cfg (e :: w_log w))); exact Ha|exact Ha]. }
+  specialize (F pend (ROk tt, w1) K).
+  destruct (fold_left _ pend (ROk tt, w1)) as [[u|er] w2]; cbn [snd] in *; [|exact F].
+  match goal with |- context [consume LOOPFUEL cfg ?r w2 tt ?h ?fin] =>
+    pose proof (consume_inv cfg (grows (e :: w_log w)) (retry_next_grows cfg (e :: w_log w)) h fin LOOPFUEL r w2 tt F) as K3;
+    destruct (consume LOOPFUEL cfg r w2 tt h fin) as [r3 w3] end.
+  exact K3.
+Qed.
